@@ -129,6 +129,8 @@ func runC17(w *World, r *Report) {
 		return ok && !isErrReturn(i)
 	}
 
+	c17ErrorConditions(w, r, h, begin)
+
 	bad = pathAvoiding(begin, cuts, isCommit, isOkReturn)
 	if bad != nil {
 		r.Violate("R-C17-2", "scripting.Handler|success-return", w.pos(bad.Pos()), "a non-error return is reachable after Begin without Commit")
@@ -171,4 +173,83 @@ func releasesTx(i ssa.Instruction, fn *ssa.Function) bool {
 	})
 
 	return found
+}
+
+// c17ErrorConditions: R-C17-3. Every iteration of the operation loop that
+// follows Begin must look at the task's error conditions (task.Errors): an
+// opcode branch that `continue`s past them commits a transaction whose stated
+// error condition tripped.
+func c17ErrorConditions(w *World, r *Report, h *ssa.Function, begin *ssa.Call) {
+	r.Rule("R-C17-3", "loop must-pass-through: every iteration of the @transaction operation loop (the loop dominated by Begin) reads the operation's Errors field, so no opcode can skip the error-condition evaluation", 1)
+
+	isErrorsRead := func(in ssa.Instruction) bool {
+		switch x := in.(type) {
+		case *ssa.FieldAddr:
+			return fieldName(x.X.Type(), x.Field) == "Errors" && namedOf(x.X.Type()) != nil && namedOf(x.X.Type()).Obj().Name() == "TXOperation"
+		case *ssa.Field:
+			return fieldName(x.X.Type(), x.Field) == "Errors" && namedOf(x.X.Type()) != nil && namedOf(x.X.Type()).Obj().Name() == "TXOperation"
+		}
+
+		return false
+	}
+
+	n := 0
+
+	for _, li := range naturalLoops(h) {
+		if !begin.Block().Dominates(li.header) {
+			continue
+		}
+
+		// the operation loop is the outermost loop after Begin that contains the reads
+		has := false
+
+		for b := range li.body {
+			for _, in := range b.Instrs {
+				if isErrorsRead(in) {
+					has = true
+				}
+			}
+		}
+
+		// outermost: header not inside another post-Begin loop's body
+		outer := true
+
+		for _, lj := range naturalLoops(h) {
+			if lj != li && lj.header != li.header && begin.Block().Dominates(lj.header) && lj.body[li.header] {
+				outer = false
+			}
+		}
+
+		if !outer {
+			continue
+		}
+
+		n++
+
+		key := "scripting.Handler|operation-loop"
+
+		if !has {
+			r.Violate("R-C17-3", key, w.pos(begin.Pos()), "the operation loop never reads task.Errors: error conditions are not evaluated")
+
+			continue
+		}
+
+		if latch := iterationAvoiding(li, nil, isErrorsRead); latch != nil {
+			pos := ""
+
+			for _, in := range latch.Instrs {
+				if in.Pos().IsValid() {
+					pos = w.pos(in.Pos())
+				}
+			}
+
+			r.Violate("R-C17-3", key, pos, "an iteration of the operation loop can complete without evaluating the operation's error conditions (task.Errors): a tripped condition no longer aborts the transaction")
+		} else {
+			r.Discharge("R-C17-3", key, w.pos(begin.Pos()), "every iteration reads task.Errors or leaves the loop")
+		}
+	}
+
+	if n == 0 {
+		r.Anchor("R-C17-3", "operation loop after Begin in scripting.Handler")
+	}
 }
